@@ -133,6 +133,8 @@ def all_cases(tier: str) -> list:
         for opt in (False, True):
             for state in ("static", "missing"):
                 out.append({"late": True, "async": is_async, "optional": opt, "state": state})
+                out.append({"late_local": True, "async": is_async, "optional": opt, "state": state})
+                out.append({"wrapped": True, "async": is_async, "optional": opt, "state": state})
     return out
 
 
@@ -301,7 +303,9 @@ class C19:
         res = env.data["res"] = {"violations": [], "samples": []}
         for case in program["cases"]:
             fails: list = []
-            if "late" in case:
+            if "late_local" in case or "wrapped" in case:
+                fails = await self.scope_case(env, case)
+            elif "late" in case:
                 fails = await self.late_case(env, case)
             elif "reject" in case:
                 ns: dict = {"_TA": TA, "_TB": TB, "REC": []}
@@ -315,6 +319,67 @@ class C19:
             if fails:
                 res["violations"].append({"keys": sorted({f[0] for f in fails}), "fails": [list(f) for f in fails[:4]], "program": case,
                                           "choices": [], "trace": [], "outcome": "done"})
+
+    async def scope_case(self, env: Any, case: dict) -> list:
+        """(late_local) a locally defined injected function whose string annotation names a class that is bound further down in the
+        enclosing function, first called when the class exists; (wrapped) @inject stacked on a functools.wraps-based decorator:
+        the markers of the wrapped function's signature are honoured."""
+        import warnings
+
+        from asphalt.core import Context, ResourceNotFound, get_resource, get_resource_nowait
+
+        fails: list = []
+        d = "async def" if case["async"] else "def"
+        if "late_local" in case:
+            ann = "'Optional[Svc]'" if case["optional"] else "'Svc'"
+            src = (f"from typing import Optional\nfrom asphalt.core import inject, resource\n"
+                   f"def build():\n"
+                   f"    @inject\n    {d} first(r: {ann} = resource()):\n        REC.append(r)\n        return 'ret'\n"
+                   f"    class Svc:\n        pass\n"
+                   f"    @inject\n    {d} second(r: Svc = resource()):\n        return r\n"
+                   f"    return first, Svc\n"
+                   f"f, TheSvc = build()\n")  # (the class is deliberately NOT a module-level name called Svc)
+        else:
+            ann = "Optional[Svc]" if case["optional"] else "Svc"
+            aw = "await " if case["async"] else ""
+            src = (f"import functools\nfrom typing import Optional\nfrom asphalt.core import inject, resource\n"
+                   f"class Svc:\n    pass\n"
+                   f"def logged(fn):\n"
+                   f"    @functools.wraps(fn)\n    {d} wrapper(*args, **kwargs):\n        CALLS.append(fn.__name__)\n        return {aw}fn(*args, **kwargs)\n"
+                   f"    return wrapper\n"
+                   f"@inject\n@logged\n{d} f(r: {ann} = resource()):\n    REC.append(r)\n    return 'ret'\n")
+        ns: dict = {"REC": [], "CALLS": []}
+        try:
+            with warnings.catch_warnings():
+                warnings.simplefilter("ignore")
+                exec(compile(src, "<c19-scope>", "exec"), ns)
+        except BaseException as e:  # noqa: BLE001
+            return [("decoration", f"decorating raised {e!r}\n{src}")]
+        f, Svc = ns["f"], ns.get("TheSvc") or ns["Svc"]
+        async with Context() as ctx:
+            if case["state"] == "static":
+                ctx.add_resource(Svc(), types=Svc)
+            kw = {"optional": True} if case["optional"] else {}
+            try:
+                exp: Any = ("ok", (await get_resource(Svc, **kw)) if case["async"] else get_resource_nowait(Svc, **kw))
+            except ResourceNotFound:
+                exp = ("exc", "ResourceNotFound")
+            try:
+                r = f()
+                if case["async"]:
+                    r = await r
+                got: Any = ("ok", r)
+            except BaseException as e:  # noqa: BLE001
+                got = ("exc", type(e).__name__)
+            what = "late_local" if "late_local" in case else "wrapped"
+            if exp[0] == "exc":
+                if got != exp:
+                    fails.append((what, f"explicit lookup raises {exp[1]}, the injected call gave {got!r}"))
+                elif ns["REC"]:
+                    fails.append((what, "the lookup fails but the function body ran"))
+            elif got != ("ok", "ret") or not ns["REC"] or ns["REC"][-1] is not exp[1]:
+                fails.append((what, f"explicit lookup returns {exp[1]!r}, the injected call gave {got!r} with argument {ns['REC'][-1:]!r}"))
+        return fails
 
     async def late_case(self, env: Any, case: dict) -> list:
         """A string forward reference whose class does not exist yet at the first call: that call fails; once the class is defined
